@@ -104,6 +104,8 @@ func c20GenTx(r *simrt.Rand, i int) node.TxSpec {
 		s.K = "refund"
 		s.Miner = pick()
 		s.Amount = []string{"1", "100", "400", "401", "2000", "18446744073709551615", "999999", "0"}[r.Intn(8)]
+	case x < 81:
+		s.K = "node"
 	case x < 88:
 		s.K = "chacct"
 		s.Miner = pick()
